@@ -59,6 +59,11 @@ inline std::vector<long> shape_vec(const S& s) {
 
 template <class E>
 inline vj::value elem_value(const E& x) {
+    if constexpr (!std::is_arithmetic_v<E>) {
+        // an element may itself be a (zero-dimensional) view object: read it through its element type
+        using T = meta::get_element_type_t<E>;
+        return elem_value(static_cast<T>(x));
+    } else
     if constexpr (std::is_floating_point_v<E>) {
         // integral values travel as integers (exact for the specification); anything else as an opaque token
         double d = (double)x;
